@@ -69,7 +69,13 @@ async def in_terminal(render_cli_done: bool = False) -> AsyncGenerator[None, Non
                 await call_some_async_function()
     """
     app = get_app_or_none()
-    if app is None or not app._is_running:
+    if app is None or (
+        not app._is_running
+        and (app._running_in_terminal_f is None or app._running_in_terminal_f.done())
+    ):
+        # (When the application is terminating, but an earlier
+        # `run_in_terminal` call is still in progress or waiting, we chain to
+        # it like usual. Otherwise, this call would overtake the waiting ones.)
         yield
         return
 
